@@ -698,9 +698,11 @@ impl St {
                 }
                 drop(src);
                 self.dead_ids.extend(&src_ids);
-                for (id, _) in &self.model {
-                    if !ledger::is_alive(*id) {
-                        return Err(format!("dropping the clone_from source destroyed element id={id} of the destination (shared element)"));
+                if matches!(flow, Flow::Done) {
+                    for (id, _) in &self.model {
+                        if !ledger::is_alive(*id) {
+                            return Err(format!("dropping the clone_from source destroyed element id={id} of the destination (shared element)"));
+                        }
                     }
                 }
                 self.flags |= fl::READ_OR_MOVED;
